@@ -10,6 +10,8 @@ CONSTANTS
   EmitStep = 1
   Dev = {}
   SharedW = {"p1", "p2"}
+  Directors = {}
+  Spare = {}
   InitLive = {"p1", "p2"}
   InitSteps = {}
   InitDeps <- NoDeps
